@@ -302,3 +302,48 @@ func (n *Net) Deliver(env *Envelope, to int) int {
 	}()
 	return len(hs)
 }
+
+// DeliverBatch hands the envelopes, in the given order, to receiver `to` from
+// ONE new goroutine (so their relative order is preserved). Follow with
+// synctest.Wait(). Returns how many envelopes were decodable and had a handler.
+func (n *Net) DeliverBatch(envs []*Envelope, to int) int {
+	type item struct {
+		msg *Message
+		hs  []*chanHandler
+	}
+	var items []item
+	for _, env := range envs {
+		msg, ok := n.Decode(env, to)
+		if !ok {
+			continue
+		}
+		rc := n.Nodes[to].Channel(env.Channel)
+		rc.mu.Lock()
+		hs := []*chanHandler{}
+		for _, h := range rc.handlers {
+			if h.ctx.Err() == nil {
+				hs = append(hs, h)
+			}
+		}
+		rc.mu.Unlock()
+		if len(hs) == 0 {
+			n.drop("no-handler")
+			continue
+		}
+		items = append(items, item{msg, hs})
+	}
+	if len(items) == 0 {
+		return 0
+	}
+	go func() {
+		for _, it := range items {
+			for _, h := range it.hs {
+				if h.ctx.Err() != nil {
+					continue
+				}
+				h.fn(it.msg)
+			}
+		}
+	}()
+	return len(items)
+}
